@@ -753,6 +753,144 @@ def quantizer_list_branches(rng, tier):
   return [((5,),), ((5, 5, 2),)], out
 
 
+class Chain:
+  """several layers applied one after the other, handled as one branch of a packed model"""
+
+  def __init__(self, layers):
+    self.layers = list(layers)
+
+  def __call__(self, x):
+    for l in self.layers:
+      x = l(x)
+    return x
+
+  def get_weights(self):
+    return [l.get_weights() for l in self.layers]
+
+  def set_weights(self, ws):
+    for l, w in zip(self.layers, ws):
+      l.set_weights(w)
+
+
+def branch_layers(b):
+  return b.layers if isinstance(b, Chain) else [b]
+
+
+QUANTIZER_ARGS = {"quantized_bits": "4", "quantized_linear": "4", "quantized_hswish": "6,2"}
+
+
+def default_alpha_branches(rng, tier, trainable_classes):
+  """EVERY quantizer class that has `_set_trainable_parameter` (from the model's tables), with alpha
+  left at its default None, as object and as string, in the weight slots on which the layer
+  constructors call `_set_trainable_parameter` (alpha None -> 'auto_po2' AFTER construction), with
+  weights scaled far away from 1 so that the auto scale differs from the default scale; plus
+  quantizer objects with a history: shared by two layers, called stand-alone before being handed to
+  a layer, switched to 'auto_po2' by one layer and then used in a bias slot, re-configured through
+  the public `update_qnoise_factor`"""
+  import tensorflow as tf
+  import qkeras as Q
+  out = []
+  def qmake(cls_name, form):
+    args = QUANTIZER_ARGS.get(cls_name, "")
+    if form == "string":
+      return "%s(%s)" % (cls_name, args)
+    return getattr(Q, cls_name)(*[int(a) for a in args.split(",") if a])
+  def add(kind, slots, cls_name, form, mk):
+    scale = [0.05, 3.0][int(rng.integers(0, 2))]
+    lab = "%s(%s=%s as %s, alpha left at None) with weights scaled by %g" % (
+        kind, "/".join(slots), "%s(%s)" % (cls_name, QUANTIZER_ARGS.get(cls_name, "")), form, scale)
+    out.append(dict(label=lab, cls=kind, inp={"QDense": 0, "QScaleShift": 0, "QSimpleRNN": 2}.get(kind, 1), make=mk, wscale=scale,
+                    key={"layer": kind, "qclass": cls_name, "option": "default-alpha/%s/%s" % (form, "+".join(slots))}))
+  for cls_name in trainable_classes:
+    for form in ("object", "string"):
+      add("QDense", ["kernel_quantizer"], cls_name, form,
+          lambda name, c=cls_name, f=form: Q.QDense(3, name=name, kernel_quantizer=qmake(c, f)))
+      # quick: per class one convolutional slot, drawn (QConv2D with the object or QDepthwiseConv2D with the string)
+      conv_pick = int(rng.integers(0, 2))
+      if tier != "quick" or (form == "object" and conv_pick == 0):
+        add("QConv2D", ["kernel_quantizer"], cls_name, form,
+            lambda name, c=cls_name, f=form: Q.QConv2D(2, (2, 2), name=name, kernel_quantizer=qmake(c, f)))
+      if tier != "quick" or (form == "string" and conv_pick == 0):
+        add("QDepthwiseConv2D", ["depthwise_quantizer"], cls_name, form,
+            lambda name, c=cls_name, f=form: Q.QDepthwiseConv2D((2, 2), name=name, depthwise_quantizer=qmake(c, f)))
+      if tier != "quick":
+        add("QSeparableConv2D", ["depthwise_quantizer", "pointwise_quantizer"], cls_name, form,
+            lambda name, c=cls_name, f=form: Q.QSeparableConv2D(2, (2, 2), name=name, depthwise_quantizer=qmake(c, f),
+                                                               pointwise_quantizer=qmake(c, f)))
+        add("QSimpleRNN", ["kernel_quantizer", "recurrent_quantizer"], cls_name, form,
+            lambda name, c=cls_name, f=form: Q.QSimpleRNN(2, name=name, kernel_quantizer=qmake(c, f),
+                                                         recurrent_quantizer=qmake(c, f)))
+        add("QScaleShift", ["weight_quantizer"], cls_name, form,
+            lambda name, c=cls_name, f=form: Q.QScaleShift(name=name, weight_quantizer=qmake(c, f)))
+  # ---- histories on one quantizer object
+  def hist(lab, cls_name, mk, inp=0):
+    out.append(dict(label=lab, cls="QDense", inp=inp, make=mk, wscale=3.0,
+                    key={"layer": "QDense", "qclass": cls_name, "option": "history/" + lab.split(":")[0]}))
+  # quick: every kind of history on two classes, drawn per run
+  picks = trainable_classes if tier != "quick" else [
+      trainable_classes[int(i)] for i in rng.choice(len(trainable_classes), min(2, len(trainable_classes)), replace=False)]
+  for cls_name in picks:
+    def shared(name, c=cls_name):
+      q = qmake(c, "object")
+      return Chain([Q.QDense(4, name=name + "a", kernel_quantizer=q), Q.QDense(3, name=name + "b", kernel_quantizer=q)])
+    hist("shared: one %s object (alpha None) is the kernel quantizer of two chained QDense layers" % cls_name, cls_name, shared)
+    def preused(name, c=cls_name):
+      q = qmake(c, "object")
+      q(tf.constant([[[0.5, -7.0, 2.5]]]))         # stand-alone call, another rank and magnitude
+      return Q.QDense(3, name=name, kernel_quantizer=q)
+    hist("pre-used: %s object (alpha None) called stand-alone on a rank-3 tensor, then handed to QDense" % cls_name,
+         cls_name, preused)
+    def then_bias(name, c=cls_name):
+      q = qmake(c, "object")
+      first = Q.QDense(4, name=name + "a", kernel_quantizer=q)      # switches q to 'auto_po2'
+      return Chain([first, Q.QDense(3, name=name + "b", kernel_quantizer=Q.quantized_bits(4, 0, 1, alpha=1.0),
+                                    bias_quantizer=q)])
+    hist("kernel-then-bias: %s object switched to auto_po2 by one QDense, then the bias quantizer of the next" % cls_name,
+         cls_name, then_bias)
+  def noise(name):
+    q = Q.quantized_bits(4, 0, 1, alpha=1.0)
+    q.update_qnoise_factor(0.5)
+    a = Q.quantized_relu(4, 1)
+    a.update_qnoise_factor(0.25)
+    return Q.QDense(3, name=name, kernel_quantizer=q, activation=a)
+  hist("update_qnoise_factor: quantized_bits / quantized_relu re-configured through update_qnoise_factor(0.5 / 0.25) "
+       "before being handed to QDense", "quantized_bits", noise)
+  return [((5,),), ((5, 5, 2),), ((3, 4),)], out
+
+
+def keras_name_branches(rng, tier):
+  """stock Keras layers inside a quantized model, naming their activation by a Keras built-in NAME:
+  `Activation(name)` behind a QDense for every built-in activation name, and for the names that
+  qkeras also exports (another function under the same name: hard_sigmoid) every stock layer kind
+  that takes an activation.  The three routes install the library's custom-object table, in which
+  custom names win over Keras' own: the table must not shadow a Keras name."""
+  import tensorflow as tf
+  import qkeras as Q
+  from qkeras import quantizers as QQ
+  del rng, tier
+  L = tf.keras.layers
+  names = sorted(n for n in dir(tf.keras.activations)
+                 if not n.startswith("_") and callable(getattr(tf.keras.activations, n))
+                 and n not in ("get", "serialize", "deserialize"))
+  colliding = [n for n in names if callable(getattr(QQ, n, None)) or callable(getattr(Q, n, None))]
+  qd = lambda name: Q.QDense(4, name=name, kernel_quantizer=Q.quantized_bits(4, 0, 1, alpha=1.0))
+  out = []
+  def add(kind, inp, name_, mk):
+    out.append(dict(label="QDense -> stock Keras %s using the Keras name %r" % (kind, name_) if inp == 0 else
+                    "stock Keras %s using the Keras name %r (next to Q-layers)" % (kind, name_),
+                    cls="keras:" + kind.split("(")[0], inp=inp, make=mk, keras_name=name_,
+                    key={"layer": "keras:" + kind.split("(")[0], "qclass": "keras-name", "option": name_}))
+  for n in names:
+    add("Activation", 0, n, lambda name, n=n: Chain([qd(name + "q"), L.Activation(n, name=name)]))
+  for n in colliding:
+    add("Dense(activation=)", 0, n, lambda name, n=n: Chain([qd(name + "q"), L.Dense(3, activation=n, name=name)]))
+    add("Conv2D(activation=)", 1, n, lambda name, n=n: L.Conv2D(2, (2, 2), activation=n, name=name))
+    add("LSTM(recurrent_activation=)", 2, n, lambda name, n=n: L.LSTM(2, recurrent_activation=n, name=name))
+    add("GRU(recurrent_activation=)", 2, n, lambda name, n=n: L.GRU(2, recurrent_activation=n, name=name))
+    add("SimpleRNN(activation=)", 2, n, lambda name, n=n: L.SimpleRNN(2, activation=n, name=name))
+  return [((5,),), ((5, 5, 2),), ((3, 4),)], out, colliding
+
+
 def native_value_cases():
   """a plain Python value where the library calls a numpy method in get_config: the constructor
   accepts it (`np.array(post_training_scale)`), every route then raises AttributeError —
@@ -867,6 +1005,16 @@ def static_tie(run, model_tables):
         [(p["name"], p["kind"], p["read"]) for p in b["params"]])
     cmp("static-layer-flags", name, (a["none_is_linear"], a["hook"]), (b["none_is_linear"], b["hook"]))
   cmp("static-custom-object-table", "keys", live["custom_objects"], model_tables["custom_objects"])
+  cmp("static-keras-activation-names", "names", live["keras_activation_names"], model_tables.get("keras_activation_names"))
+  # clause oracle on the table itself: inside the custom-object scope custom names win, so a key
+  # that Keras resolves on its own replaces Keras' function in every stock layer using the name
+  for k in live["custom_objects"]:
+    if k in live["keras_activation_names"]:
+      run.violate("table", {"layer": "custom-object-table", "qclass": "keras-name", "option": k,
+                            "failure": "shadows-keras-name"},
+                  {"key": k, "what": "the custom-object table registers %r, which is also a built-in Keras activation "
+                                     "name: Activation(%r) in a quantized model is rebuilt with the table's function" % (k, k),
+                   "replay": "qkeras.utils._add_supported_quantized_objects(d); %r in d" % k}, mirrored=False)
   # Clip / QInitializer signatures (special-cased structures of the model)
   from qkeras import qlayers
   cmp("static-clip-signature", "Clip", [(k, d) for k, _, d in T.sig_params(qlayers.Clip)],
@@ -991,6 +1139,32 @@ def run(run: core.Run, tier: str):
                          cfg_exc=None if cfg_exc is None else
                          {"exception": type(cfg_exc).__name__, "message": str(cfg_exc)[:300].replace("\n", " ")}))
       pending.append((len(models), len(layers) - 1, {"op": "layer", "layer": lj}))
+    # stock Keras layers: the function behind an activation NAME must be the same object after every
+    # route (the model: Keras-native nodes come back unchanged; the custom-object scope must not
+    # shadow a Keras name)
+    def fn_id(f):
+      return "%s.%s" % (getattr(f, "__module__", "?"), getattr(f, "__name__", f.__class__.__name__))
+    for l in model.layers:
+      if not l.__class__.__module__.startswith(("tf_keras", "keras")):
+        continue
+      fns = {a: fn_id(getattr(l, a)) for a in ("activation", "recurrent_activation") if callable(getattr(l, a, None))}
+      if not fns:
+        continue
+      for r in ROUTES:
+        m2 = res[r][2]
+        if m2 is None:
+          continue
+        run.compared += 1
+        try:
+          l2 = m2.get_layer(l.name)
+          fns2 = {a: fn_id(getattr(l2, a)) for a in fns}
+        except Exception as e:  # pylint: disable=broad-except
+          fns2 = {"error": "%s: %s" % (type(e).__name__, str(e)[:120])}
+        if fns2 != fns:
+          run.count("keras_layer_function_replaced")
+          run.disagree("keras-layer-function", {"model": label if len(label) < 300 else label[:300] + "...",
+                                                "layer": l.name, "class": l.__class__.__name__, "route": r},
+                       fns2, fns)
     wrappers = []
     for l in model.layers:
       if l.__class__.__name__ == "QBidirectional":
@@ -1190,8 +1364,15 @@ def run(run: core.Run, tier: str):
       cands = list(enumerate(branches))
       xs = [rng.normal(0, 1, (3,) + sh[0]).astype(np.float32) for sh in in_shapes]
       model, used, kept, slices, bad = assemble(cands)
+      def scale_weights(kept):
+        for _, b, _, layer in kept:
+          if b.get("wscale"):
+            for l in branch_layers(layer):
+              l.set_weights([w * np.float32(b["wscale"]) if (w.ndim > 0 and np.issubdtype(w.dtype, np.floating)) else w
+                             for w in l.get_weights()])
       try:
         randomize_weights(model, rng)
+        scale_weights(kept)
         model.run_eagerly = True
         model.predict([xs[k] for k in used], verbose=0)
       except Exception:  # pylint: disable=broad-except
@@ -1201,13 +1382,14 @@ def run(run: core.Run, tier: str):
           try:
             tf.keras.backend.clear_session()
             inp = L.Input(in_shapes[b["inp"]][0])
-            tf.keras.Model(inp, b["make"]("t")(inp)).predict(xs[b["inp"]], verbose=0)
+            tf.keras.Model(inp, b["make"]("t%d" % i)(inp)).predict(xs[b["inp"]], verbose=0)
             good.append((i, b))
           except Exception as e:  # pylint: disable=broad-except
             bad.append({"label": b["label"], "error": "%s: %s" % (type(e).__name__, str(e)[:160].replace("\n", " "))})
         model, used, kept, slices, bad2 = assemble(good)
         bad += bad2
         randomize_weights(model, rng)
+        scale_weights(kept)
         model.run_eagerly = True
         model.predict([xs[k] for k in used], verbose=0)
       if bad:
@@ -1216,9 +1398,10 @@ def run(run: core.Run, tier: str):
       x = [xs[k] for k in used]
       x = x[0] if len(x) == 1 else x
       for _, b, _, layer in kept:
-        run.case(("array-args", b["label"]), sample={"stream": "array-args", "model": b["label"]}
-                 if (b["key"]["option"].startswith("kernel=1x3") and b["cls"] == "QConv2D") else None)
-        run.count("array_args_" + b["cls"])
+        run.case((group, b["label"]), sample={"stream": group, "model": b["label"]}
+                 if (b["key"]["option"].startswith(("kernel=1x3", "default-alpha/object/kernel", "hard_sigmoid"))
+                     and b["cls"] in ("QConv2D", "keras:Activation")) else None)
+        run.count("%s_%s" % (group, b["cls"]))
         if "mask" in b:
           run.count("mask_" + b["key"]["option"].split("mask=")[1].split("/")[0])
           mask_ties.append((b["label"], enc_pv(canon(b["mask"])), canon(layer._mask)))  # pylint: disable=protected-access
@@ -1246,11 +1429,21 @@ def run(run: core.Run, tier: str):
         ci = add_model("array-args-branch", b["label"], b["key"], single, xs[b["inp"]], eager=True)
         models[mi]["children"].append(ci)
 
-    for group, fn in (("mask", mask_branches), ("tuple", tuple_branches), ("qlist", quantizer_list_branches)):
+    trainable_classes = [q["name"] for q in model_tables["quantizers"]
+                         if q["trainable"] and q["name"] not in EXCLUDED]
+    keras_info = {}
+    def keras_names(rng_, tier_):
+      shapes, branches, colliding = keras_name_branches(rng_, tier_)
+      keras_info["colliding"] = colliding
+      return shapes, branches
+    for group, fn in (("mask", mask_branches), ("tuple", tuple_branches), ("qlist", quantizer_list_branches),
+                      ("alpha", lambda r, t: default_alpha_branches(r, t, trainable_classes)),
+                      ("keras", keras_names)):
       in_shapes, branches = fn(rng, tier)
       t0 = _time.time()
       packed(group, in_shapes, branches)
       stream_wall["array-args:%s (build included)" % group] = round(_time.time() - t0, 1)
+    run.extra["keras_activation_names_also_exported_by_qkeras"] = keras_info.get("colliding")
 
     # a list is not an array: the QConv2D constructor reads `mask.shape` (no round trip to check)
     try:
